@@ -835,7 +835,12 @@ impl Version {
                 FIND_BEST_COMPACTION_MAX_BYTES_EXCEEDED.click();
                 return (candidate, best_score);
             }
-            if inputs.len() > self.options.max_compaction_files
+            // NOTE:  Like max_compaction_bytes, max_compaction_files does not bind a compaction out
+            // of level 0.  Ingest stalls until level 0 shrinks, and only a compaction that takes
+            // all of level 0 and its overlap in level 1 shrinks it; refusing that compaction for
+            // having too many inputs leaves every compaction thread without work and ingest
+            // stalled forever.
+            if (inputs.len() > self.options.max_compaction_files && lower_level != 0)
                 || inputs.len() > self.options.max_open_files
             {
                 FIND_BEST_COMPACTION_MAX_FILES_EXCEEDED.click();
